@@ -58,6 +58,10 @@ VALID_KW = [
     {'emissions': {'climb_descent_mode': 'trajectory', 'pmnvol_method': 'none'}},
     {'weather': {'use_weather': True}},
     {'performance_model': '{SANDBOX}/data/perf_alt.toml'},            # absolute path
+    # setting names in another case than the packaged defaults use
+    {'emissions': {'NOx_method': 'none', 'APU_enabled': False}},
+    {'emissions': {'PMVOL_METHOD': 'foa3'}, 'weather': {'Use_Weather': False}},
+    {'Emissions': {'hc_method': 'none'}, 'WEATHER': {'use_weather': False}},   # section names too
 ]
 INVALID_VALUE_KW = [
     {'emissions': {'nox_method': 'bogus'}},
@@ -91,13 +95,21 @@ MUTATIONS = [
 ]
 
 
-def deep_merge(base: dict, over: dict) -> dict:
+def deep_merge(base: dict, over: dict, depth: int = 0) -> dict:
+    """Overlay; setting and section names are case-insensitive (documented behaviour of the
+    configuration models) and the later source wins."""
     out = copy.deepcopy(base)
     for k, v in over.items():
-        if k in out and isinstance(out[k], dict) and isinstance(v, dict):
-            out[k] = deep_merge(out[k], v)
+        kk = k
+        if k not in out:
+            for ex in out:
+                if ex.lower() == k.lower():
+                    kk = ex
+                    break
+        if kk in out and isinstance(out[kk], dict) and isinstance(v, dict):
+            out[kk] = deep_merge(out[kk], v, depth + 1)
         else:
-            out[k] = copy.deepcopy(v)
+            out[kk] = copy.deepcopy(v)
     return out
 
 
